@@ -1,4 +1,8 @@
-"""C10 - fail-stop: complete finite results or an exception, never a hang."""
+"""C10 - fail-stop: complete finite results or an exception, never a hang.
+
+Fourth round (`circumstances`; helpers in harness/u2_util.py): fail-stop at the boundary an operator sees - the exit
+status of `uwg simulate param|model` for every class of refusal the library makes - and under `python -O`, observers,
+DEBUG logging, other models of the process, a refused dictionary used twice."""
 import csv
 import math
 import os
@@ -554,6 +558,390 @@ def write_after_failure(chk, work):
                'no file or the earlier file byte for byte', mismatches=bad, branches=br)
 
 
+# ----------------------------------------------------------------------------------------------------------
+# Fourth round: circumstances. Fail-stop must hold at every boundary an operator sees - the exit status of the
+# command line included - and whoever looks, whatever the logging level, the interpreter mode, the other models.
+def library_verdict(uwg, route, path, outdir, name):
+    """what the library calls do with this file: ('raised', class, stage) or ('returned', None, None)"""
+    stage = 'reading'
+    S3.remove_if_exists(os.path.join(outdir, name))
+    try:
+        def call():
+            nonlocal stage
+            with core.quiet():
+                if route == 'param':
+                    m = uwg.UWG.from_param_file(path, U.rp(U.EPW_SGP), outdir, name)
+                else:
+                    import json
+                    m = uwg.UWG.from_dict(json.load(open(path)), epw_path=U.rp(U.EPW_SGP), new_epw_dir=outdir, new_epw_name=name)
+                stage = 'generate'
+                m.generate()
+                stage = 'simulate'
+                m.simulate()
+                stage = 'write_epw'
+                m.write_epw()
+        with_watchdog(call, 300)
+    except Hang:
+        return ('hang', None, stage)
+    except Exception as e:  # noqa: BLE001
+        return ('raised', type(e).__name__, stage)
+    return ('returned', None, None)
+
+
+def circumstances(chk, uwg, work, rows):
+    import concurrent.futures
+    import json
+    import generic as G
+    import simtoy
+    import simdriver
+    import u2_util as W
+    rng = chk.rng
+    quick = chk.tier == 'quick'
+    epw = U.rp(U.EPW_SGP)
+    nbad, n, br, shown = 0, 0, {}, {}
+
+    def bad(circ, what, case, observed, expected):
+        nonlocal nbad
+        nbad += 1
+        shown[circ] = shown.get(circ, 0) + 1
+        if shown[circ] <= 2 and nbad <= 8:
+            chk.violation('impl-violation', '%s [%s]' % (what, circ), case=case, observed=observed, expected=expected)
+
+    def count(circ, k=1):
+        nonlocal n
+        n += k
+        br[circ] = br.get(circ, 0) + k
+    # the shipped parameter file with a one-day window (the command line cannot set nday)
+    base = [list(r) for r in rows]
+    for r in base:
+        if r and r[0].replace(' ', '').lower() == 'nday':
+            r[1] = '1'
+    cdir = os.path.join(work, 'c10c')
+    os.makedirs(cdir, exist_ok=True)
+
+    def write_rows(new, name):
+        p = os.path.join(cdir, name)
+        with open(p, 'w', newline='') as f:
+            csv.writer(f, lineterminator='\n').writerows(new)
+        return p
+    # ---- (4) the command line as the route: every class of refusal the library makes
+    # all single-token corruptions, grouped by what from_param_file does with them
+    groups = {}
+    probe = os.path.join(cdir, 'probe.uwg')
+    for what, new in corruptions(base, rng, 2 if quick else None):
+        with open(probe, 'w', newline='') as f:
+            csv.writer(f, lineterminator='\n').writerows(new)
+        try:
+            def call():
+                with core.quiet():
+                    return uwg.UWG.from_param_file(probe, epw_path=epw)
+            with_watchdog(call, 20)
+            cls = 'accepted'
+        except Hang:
+            continue
+        except Exception as e:  # noqa: BLE001
+            cls = type(e).__name__
+        groups.setdefault(cls, []).append((what, new))
+    per = 8 if quick else 60
+    picked = []
+    for cls in sorted(groups):
+        if cls == 'accepted':
+            continue
+        lst = groups[cls]
+        # spread over the kinds of corruption (token text / structural), not the first tokens of the file
+        picked += [(cls, w_, new) for w_, new in rng.sample(lst, min(per, len(lst)))]
+    later = []          # refusals that come later than the reader
+    for key, tok, why in (('dtsim', '7', 'timestep that does not divide an hour: generate() refuses'),
+                          ('dtsim', '3600', 'numerical blow-up: simulate() raises after some records'),
+                          ('droad', '4.5', 'pavement deeper than the ground-temperature depths: generate() refuses'),
+                          ('h_ref', '5', 'reference height below the roughness sublayer: simulate() raises')):
+        new = [list(r) for r in base]
+        for r in new:
+            if r and r[0].replace(' ', '').lower() == key:
+                r[1] = tok
+        later.append((why, (key, tok), new))
+    cases = [('param', cls, {'corruption': list(map(str, w_)), 'row_as_written': new[w_[0]] if isinstance(w_[0], int) and
+                              w_[0] < len(new) else None}, new) for cls, w_, new in picked]
+    cases += [('param', None, {'parameter': k_[0], 'value_as_written': k_[1], 'what': why}, new) for why, k_, new in later]
+    # corruptions the reader accepts (a commented value, 0, -1, inf ... in a cell whose setter lets it pass): whatever the
+    # library then does, the command must do the same
+    acc = groups.get('accepted', [])
+    cases += [('param', 'accepted', {'corruption': list(map(str, w_)), 'row_as_written': new[w_[0]] if isinstance(w_[0], int) and
+                                     w_[0] < len(new) else None}, new) for w_, new in rng.sample(acc, min(4 if quick else 30, len(acc)))]
+    cases.append(('param', None, {'control': 'the valid file (shipped Singapore parameters, nDay 1)'}, base))
+    # JSON models
+    with core.quiet():
+        good = uwg.UWG.from_param_file(write_rows(base, 'good.uwg'), epw_path=epw).to_dict()
+    for key, v in (('albroad', 1.1), ('zone', '9Z'), ('h_mix', -1), ('month', 13), ('type', 'uwg'), ('windmin', None),
+                   ('bld', [['largeoffice', 'pst80', 0.4]]), ('schtraffic', good['schtraffic'][:2]), ('dtsim', 7),
+                   ('dtsim', 'abc'), ('<delete>', 'h_obs'), ('<control>', None)):
+        d = json.loads(json.dumps(good))
+        if key == '<delete>':
+            del d[v]
+        elif key != '<control>':
+            d[key] = v
+        cases.append(('model', None, {'json_model': 'to_dict of the valid model', 'key': key, 'value': repr(v)}, d))
+    results = []
+    stale = open(U.rp(U.EPW_SGP), 'rb').read()[:4000]
+    for i, (route, cls, case, payload) in enumerate(cases):
+        if route == 'param':
+            pth = write_rows(payload, 'c%d.uwg' % i)
+        else:
+            pth = os.path.join(cdir, 'c%d.json' % i)
+            with open(pth, 'w') as f:
+                json.dump(payload, f)
+        lib = library_verdict(uwg, route, pth, cdir, 'lib%d.epw' % i)
+        out = os.path.join(cdir, 'cli%d.epw' % i)
+        S3.remove_if_exists(out)
+        # something an earlier run left at the output name (every other case): a failing command must not touch it
+        had = None
+        if i % 2 and lib[0] == 'raised':
+            with open(out, 'wb') as f:
+                f.write(stale)
+            had = stale
+        code, got, res = W.cli_capture([route, pth, epw, '--new-epw-dir', cdir, '--new-epw-name', 'cli%d.epw' % i])
+        count('command line (in process): library %s' % (lib[0] + (' ' + lib[1] if lib[1] else '')))
+        case = dict(case, route='uwg simulate %s' % route, library_calls='%s%s' % (
+            lib[0], ' %s in %s' % (lib[1], lib[2]) if lib[1] else ''))
+        after = file_bytes(out)
+        if lib[0] == 'raised':
+            if code == 0:
+                bad('command line', 'a run that cannot proceed ends the command with an error', case,
+                    'the library route raises %s (%s), the command ended NORMALLY: exit status 0, weather file at the output '
+                    'name: %s' % (lib[1], lib[2], 'none' if after is None else 'what an earlier run left there' if after == had
+                                  else 'a new file'),
+                    'a non-zero exit status (the exception of the library reaches the caller of the command)')
+            elif after != had:
+                bad('command line', 'a failing command leaves the output name as it was', case,
+                    'exit status %s; the output name now holds %s' % (code, 'nothing' if after is None else 'another file'),
+                    'no file, or the earlier file byte for byte')
+        elif lib[0] == 'returned':
+            msg = None
+            if code != 0 or after is None:
+                msg = 'exit status %s, weather file %s' % (code, 'missing' if after is None else 'written')
+            elif after != file_bytes(os.path.join(cdir, 'lib%d.epw' % i)):
+                msg = 'exit status 0 but the weather file differs from the library route'
+            else:
+                msg = W.complete_numeric_file(out, epw)
+            if msg:
+                bad('command line', 'a run the library completes, through the command line', case, msg,
+                    'exit status 0 and the complete numeric weather file of the library route')
+        results.append((route, case, pth, lib))
+    # a handful through the real `python -m uwg` (plain and -O): exit status and file as fail-stop demands
+    want_cls = ['AssertionError', 'Exception', 'ValueError', 'IndexError']
+    sub = []
+    for cls in want_cls:
+        hit = [r for r in results if r[3][1] == cls and r[3][2] == 'reading']
+        if hit:
+            sub.append(rng.choice(hit))
+    sub += [r for r in results if r[3][2] in ('generate', 'simulate')][:3 if quick else 8]
+    sub += [r for r in results if r[3][0] == 'returned'][:2]
+    sub += [r for r in results if r[0] == 'model' and r[3][0] == 'raised'][:2 if quick else 8]
+    jobs = []
+    for j, (route, case, pth, lib) in enumerate(sub):
+        for opt in (False, True):
+            name = 'sub%d_%d.epw' % (j, opt)
+            jobs.append((j, opt, name, ['simulate', route, pth, epw, '--new-epw-dir', cdir, '--new-epw-name', name]))
+    with concurrent.futures.ThreadPoolExecutor(max_workers=8) as ex:
+        outs = list(ex.map(lambda jb: G.cli(jb[3], optimize=jb[1]), jobs))
+        surface = W.cli_surface_problems()
+    for (j, opt, name, args), (rc, so, se) in zip(jobs, outs):
+        route, case, pth, lib = sub[j]
+        mode = 'python -O -m uwg' if opt else 'python -m uwg'
+        count('command line (%s)' % mode)
+        fp = os.path.join(cdir, name)
+        case = dict(case, command='%s simulate %s <file> <Singapore epw>' % (mode, route))
+        if not opt and lib[0] == 'raised' and (rc == 0 or os.path.exists(fp)):
+            bad('command line', 'a run that cannot proceed ends the command with an error', case,
+                'the library route raises %s (%s); `%s` ended with exit status %s, weather file written: %s' % (
+                    lib[1], lib[2], mode, rc, os.path.exists(fp)), 'non-zero exit status and no weather file')
+        elif rc == 0:
+            msg = 'no weather file' if not os.path.exists(fp) else W.complete_numeric_file(fp, epw)
+            if msg:
+                bad('command line' + (' -O' if opt else ''), 'exit status 0 means a complete weather file', case,
+                    '`%s` ended with exit status 0: %s' % (mode, msg), 'exit status 0 only with a complete numeric weather file')
+        elif os.path.exists(fp):
+            bad('command line' + (' -O' if opt else ''), 'a failing command writes no weather file', case,
+                '`%s` ended with exit status %s and left a file' % (mode, rc), 'no file')
+    count('command line surface')
+    for p_ in surface:
+        bad('command line', 'options of the command line', {'command': '--help'}, p_,
+            'the commands, arguments and options of the unchanged tree')
+    # ---- (1) + (2) somebody looks at a run that completes, at a run that fails, under DEBUG logging
+    cfg = dict(month=7, day=30, nday=1, dtsim=300)
+    mp = U.new_model(outdir=cdir, outname='plain.epw', **cfg)
+    with core.quiet():
+        mp.generate(); mp.simulate(); mp.write_epw()
+    count('observers + DEBUG logging', 3)
+    try:
+        mo, reco, fho = G.run_observed(lambda: U.new_model(outdir=cdir, outname='looked.epw', **cfg))
+        msg = finite_records(mo) or numeric_file(mo.new_epw_path, mo.simTime.timeInitial, 24, 1)
+    except Exception as e:  # noqa: BLE001
+        msg, reco, fho = 'the run that completes when nobody looks raised %s: %s' % (type(e).__name__, str(e)[:150]), None, None
+    if msg or reco != U.records(mp) or fho != G.file_hash(mp.new_epw_path):
+        bad('observers', 'a complete run while somebody looks (repr / str / ToString at every stage and every 41st step, DEBUG '
+            'logging)', cfg, msg or 'hourly records / file differ from the run never looked at',
+            'complete finite records, numeric file, identical to the plain run')
+    with G.debug_logging():
+        # the real physics blowing up (shipped parameters at dtsim = 3600), looked at before, during and after
+        mb = U.new_model(outdir=cdir, outname='blow.epw', month=1, day=1, nday=1, dtsim=3600)
+        G.poke(mb)
+        with core.quiet():
+            mb.generate()
+        undo = G.poke_during(mb, every=2)
+        raised = None
+        try:
+            with core.quiet():
+                mb.simulate()
+        except Exception as e:  # noqa: BLE001
+            raised = type(e).__name__
+        finally:
+            undo()
+        G.poke(mb)
+        got = sum(1 for u in mb.UCMData if u is not None)
+        wrote = None
+        try:
+            with core.quiet():
+                mb.write_epw()
+            wrote = 'returned'
+        except Exception as e:  # noqa: BLE001
+            wrote = 'raised ' + type(e).__name__
+        G.poke(mb)
+        case = {'param': U.PARAM_SGP, 'month': 1, 'day': 1, 'nday': 1, 'dtsim': 3600, 'looked_at': 'after construction, after '
+                'generate(), every 2nd step, after the failed simulate(), after write_epw()', 'records_before_the_exception': got}
+        if raised is None:
+            msg = finite_records(mb)
+            if msg:
+                bad('observers', 'blow-up while somebody looks', case, 'simulate() returned: %s' % msg, 'an exception')
+            else:
+                chk.notes.append('circumstances: the dtsim=3600 Singapore run did not blow up (no verdict)')
+        elif os.path.exists(os.path.join(cdir, 'blow.epw')):
+            bad('observers', 'weather file left behind by a failed run that was looked at', case,
+                'simulate() raised %s after %d records, write_epw() %s, a file exists' % (raised, got, wrote), 'no file')
+        # toy physics raising part-way, looked at, then write_epw
+        mt = simdriver.build_model(6, 15, 2, 900, new_epw_dir=cdir, new_epw_name='toy.epw')
+        G.poke(mt)
+        err = simtoy.toy_morph_simulate(mt, 17, 53)
+        G.poke(mt)
+        try:
+            with core.quiet():
+                mt.write_epw()
+        except Exception:  # noqa: BLE001
+            pass
+        G.poke(mt)
+        if err and os.path.exists(os.path.join(cdir, 'toy.epw')):
+            bad('observers', 'weather file left behind by a failed run that was looked at (toy physics raising part-way)',
+                {'month': 6, 'day': 15, 'nday': 2, 'dtsim': 900}, 'a file exists after %s' % err, 'no file')
+    # ---- (5) a failing model and a good model side by side
+    count('other models')
+    a = U.new_model(outdir=cdir, outname='side_a.epw', month=1, day=1, nday=1, dtsim=3600)
+    b = U.new_model(outdir=cdir, outname='side_b.epw', **cfg)
+    cl0 = W.class_digest()
+    with core.quiet():
+        b.generate()
+        a.generate()
+    try:
+        with core.quiet():
+            a.simulate()
+    except Exception:  # noqa: BLE001
+        pass
+    with core.quiet():
+        b.simulate()
+        b.write_epw()
+    try:
+        with core.quiet():
+            a.write_epw()
+    except Exception:  # noqa: BLE001
+        pass
+    msg = finite_records(b) or numeric_file(b.new_epw_path, b.simTime.timeInitial, 24, 1)
+    if msg or U.records(b) != U.records(mp) or G.file_hash(b.new_epw_path) != G.file_hash(mp.new_epw_path):
+        bad('other models', 'a good run beside a model that blows up', dict(cfg, other_model='shipped parameters at dtsim 3600, '
+            'generated after, simulated (raising) before this one'), msg or 'records / file differ from the run alone',
+            'complete finite records, the file of the run alone')
+    if os.path.exists(os.path.join(cdir, 'side_a.epw')) and any(u is None for u in a.UCMData):
+        bad('other models', 'the failing model beside a good one', {'dtsim': 3600}, 'left a weather file', 'no file')
+    if W.class_digest() != cl0:
+        bad('other models', 'module- and class-level data of the package', {'operations': 'a failing and a good run'},
+            'digest changed', 'unchanged')
+    # ---- (6) a refused dictionary is refused again (never accepted on second use), and left as it was
+    keys = [k for k in good if k != 'type']
+    probes = ['abc', None, -1, float('nan'), []]
+    nref = 0
+    for k in (keys if not quick else rng.sample(keys, 16)):
+        for v in (probes if not quick else rng.sample(probes, 2)):
+            d = json.loads(json.dumps(good))
+            d[k] = v
+            msg, verdict = W.from_dict_twice(uwg.UWG, d, lambda x, y: None if x.to_dict() == y.to_dict() or
+                                             T.has_nan(x.to_dict()[k]) else 'to_dict differs')
+            count('caller-owned dictionary used twice: ' + verdict.split(' ')[0])
+            nref += verdict != 'ok'
+            if msg:
+                bad('caller-owned data', 'a dictionary with one corrupted value given to from_dict twice',
+                    {'key': k, 'value': repr(v)}, msg, 'the same verdict both times (a refusal stays a refusal), dictionary as it was')
+    # ---- (3) fresh processes, python and python -O: the library calls on a handful of files
+    specs = []
+    pick = [r for r in sub if r[0] == 'param']
+    for j, (route, case, pth, lib) in enumerate(pick):
+        for opt in (False, True):
+            tag = 'f%d%s' % (j, '-O' if opt else '')
+            specs.append((tag, {'ops': [['newf', 'M', {'param': pth, 'out': [os.path.join(cdir, tag), 'o.epw']}], ['gen', 'M'],
+                                        ['sim', 'M'], ['write', 'M'], ['rec', 'M', 'run']]}, opt))
+    docs = W.children(specs, cdir, workers=8)
+    for j, (route, case, pth, lib) in enumerate(pick):
+        for opt in (False, True):
+            tag = 'f%d%s' % (j, '-O' if opt else '')
+            mode = 'python -O' if opt else 'python'
+            count(mode + ' (fresh process)')
+            rc, doc, err = docs[tag]
+            c2 = dict(case, interpreter=mode + ', fresh process', calls='from_param_file; generate; simulate; write_epw')
+            fp = os.path.join(cdir, tag, 'o.epw')
+            if doc is None:
+                bad(mode, 'scenario in a fresh interpreter', c2, 'rc=%s %s' % (rc, err[-200:]), 'runs')
+                continue
+            calls = doc['log'][:4]
+            if all(x == 'ok' for x in calls):
+                recs = (doc['obs'].get('run') or {}).get('records') or []
+                msg = None
+                if len(recs) != 24 or any(r is None for r in recs):
+                    msg = '%d of 24 hourly records' % sum(1 for r in recs if r is not None)
+                elif any(not math.isfinite(float(x)) for r in recs for x in r):
+                    msg = 'a record that is not finite'
+                elif not os.path.exists(fp):
+                    msg = 'no weather file'
+                else:
+                    msg = W.complete_numeric_file(fp, epw)
+                if msg:
+                    bad(mode, 'all four calls returned under %s' % mode, c2, msg, 'complete finite records and a numeric file')
+                if not opt and lib[0] == 'raised':
+                    bad(mode, 'verdict of the library calls in a fresh process', c2, 'all calls returned',
+                        'as in this process: %s in %s' % (lib[1], lib[2]))
+            else:
+                if os.path.exists(fp):
+                    bad(mode, 'a failing call leaves no weather file (%s)' % mode, c2, 'calls: %s; a file exists' % calls, 'no file')
+                if not opt and lib[0] == 'returned':
+                    bad(mode, 'verdict of the library calls in a fresh process', c2, 'calls: %s' % calls, 'all return')
+    chk.direct('circumstances(command line exit status, python -O, observers, DEBUG logging, other models, caller-owned data)',
+               n, n,
+               '(4) every single-token corruption of the shipped parameter file (nDay 1) is read once and grouped by what '
+               'from_param_file does (%s); %d members per class of refusal, refusals that come later (dtsim 7 and droad 4.5 in '
+               'generate(), blow-up at dtsim 3600 and h_ref 5 in simulate()), the valid file, and JSON models with one corrupted '
+               'key (out of range, unknown zone, wrong type field, missing / null key, short schedule, stock summing to 0.4, '
+               'non-numeric and non-divisor timestep) each go through the library calls and through `uwg simulate param|model` '
+               '(click runner in this process): library raises => non-zero exit status and the output name holds what it held '
+               'before (nothing, or what an earlier run left there); library returns => exit status 0 and the complete numeric '
+               'file of the library route; a member of every class again through real `python -m uwg` and `python -O -m uwg` '
+               '(exit 0 only with a complete numeric file, otherwise no file); `--help` surface of the unchanged tree; '
+               '(1, 2) a complete run, the real blow-up (shipped parameters at dtsim 3600) and a toy run raising part-way while '
+               'repr / str / ToString of every reachable object is taken at every stage and during the steps under DEBUG '
+               'logging: same records and file / exception still raised, no file left; (5) a blowing-up model and a good model '
+               'interleaved: the good one complete and identical to itself alone, class-level digest constant; (6) to_dict of '
+               'the valid model with one key set to "abc" / None / -1 / NaN / [] given to from_dict TWICE: same verdict both '
+               'times (%d refusals), dictionary as it was; (3) the library calls on the picked files in fresh `python` and '
+               '`python -O` processes: all calls return with complete finite records and a numeric file, or no file exists'
+               % (', '.join('%s: %d' % (c_, len(groups[c_])) for c_ in sorted(groups)), per, nref),
+               mismatches=nbad, branches=br)
+
+
 def run(chk):
     chk.proof(MODULE, THEOREMS, extra_modules=['UwgVerif.Props.C06'])
     if chk.tier == 'thorough':
@@ -764,6 +1152,7 @@ def run(chk):
     accepted_schedule_sets(chk, uwg, work)
     changed_after_generate(chk, work)
     write_after_failure(chk, work)
+    circumstances(chk, uwg, work, rows)
     chk.assumptions.append('non-finite values: `canTemp > 350 or canTemp < 200` is false for NaN, so a NaN would pass '
                            'the code\'s own check - outside the exact model; the scan of every record and written field '
                            'on real runs covers it. Hangs inside libm / the OS are outside.')
